@@ -366,6 +366,16 @@ theorem apply_wf {c c' : Cat} (d : Ddl) (hw : CatWF c) (h : apply c d = some c')
     · cases h
       exact ⟨hw.1, fun tr htr => hw.2.1 tr (List.mem_filter.mp htr).1, hw.2.2⟩
     · cases h
+  | createProc p =>
+    simp only [apply] at h
+    split at h
+    · cases h
+    · cases h; exact hw
+  | dropProc n =>
+    simp only [apply] at h
+    split at h
+    · cases h; exact hw
+    · cases h
 
 theorem applyAll_wf (h : List Ddl) {c : Cat} (hw : CatWF c) : CatWF (applyAll c h) := by
   induction h generalizing c with
@@ -429,6 +439,187 @@ theorem mem_updTable_other {c : Cat} {n : String} {f : Tbl → Tbl} (hname : ∀
   · intro h
     simp only [updTable, List.mem_map]
     exact ⟨t', h, by simp [hne]⟩
+
+/-! ### key order: the ordinals of the key columns read back to the key, in key order -/
+
+theorem getElem?_idxOf_of_mem {names : List String} {n : String} (h : n ∈ names) : names[names.idxOf n]? = some n := by
+  have hlt : names.idxOf n < names.length := List.idxOf_lt_length_of_mem h
+  rw [List.getElem?_eq_getElem hlt, List.getElem_idxOf hlt]
+
+theorem hasCol_iff_mem {t : Tbl} {n : String} : t.hasCol n = true ↔ n ∈ t.cols.map (·.name) := by
+  simp only [Tbl.hasCol, List.any_eq_true, decide_eq_true_eq, List.mem_map]
+
+theorem filterMap_some_of_forall {α : Type} (f : α → Option α) (l : List α) (h : ∀ n ∈ l, f n = some n) : l.filterMap f = l := by
+  induction l with
+  | nil => rfl
+  | cons a r ih =>
+    rw [List.filterMap_cons, h a (by simp)]
+    simp only
+    rw [ih (fun n hn => h n (by simp [hn]))]
+
+/-- `schema[pkOrdinals[k]].Name` is the k-th key column: going through the ordinals loses nothing and
+keeps the *key* order (not the column order). -/
+theorem showCreatePk_eq_pk (t : Tbl) (h : ∀ n ∈ t.pk, t.hasCol n = true) : showCreatePk t = t.pk := by
+  unfold showCreatePk pkOrdinals
+  rw [List.filterMap_map]
+  apply filterMap_some_of_forall
+  intro n hn
+  simp only [Function.comp]
+  rw [← List.getElem?_map]
+  exact getElem?_idxOf_of_mem (hasCol_iff_mem.mp (h n hn))
+
+/-- The rows one index contributes to STATISTICS / SHOW INDEX. -/
+def statRowsOf (t : Tbl) (i : Idx) : List Row :=
+  i.cols.zipIdx.map fun (cn, k) =>
+    [t.name, if i.unique then "0" else "1", i.name, toString (k + 1), cn, if colNullable t cn then "YES" else ""]
+
+theorem map_zipIdx_fst' {α β : Type} (f : α → β) (l : List α) (k : Nat) :
+    (l.zipIdx k).map (fun x => f x.1) = l.map f := by
+  induction l generalizing k with
+  | nil => rfl
+  | cons a r ih => simp [List.zipIdx_cons, ih]
+
+theorem map_zipIdx_snd' {α β : Type} (f : Nat → β) (l : List α) (k : Nat) :
+    (l.zipIdx k).map (fun x => f x.2) = (List.range' k l.length).map f := by
+  induction l generalizing k with
+  | nil => rfl
+  | cons a r ih => simp [List.zipIdx_cons, ih, List.range'_succ]
+
+/-! ### routines: the loop with carried variables is a map -/
+
+theorem foldl_chrStep_sec (chars : List Chr) (v : RVars) : (chars.foldl chrStep v).sec = v.sec := by
+  induction chars generalizing v with
+  | nil => rfl
+  | cons a rest ih =>
+    simp only [List.foldl_cons]
+    rw [ih]
+    cases a <;> rfl
+
+theorem foldl_chrStep_det (chars : List Chr) (v : RVars) :
+    (chars.foldl chrStep v).det =
+      match (chars.filter isDetChr).getLast? with
+      | some .det => "YES"
+      | some _ => "NO"
+      | none => v.det := by
+  induction chars generalizing v with
+  | nil => rfl
+  | cons a rest ih =>
+    simp only [List.foldl_cons]
+    rw [ih]
+    cases a <;> simp only [List.filter, isDetChr, List.getLast?_cons, chrStep] <;>
+      (cases (List.filter isDetChr rest).getLast? with
+       | none => simp
+       | some w => cases w <;> simp)
+
+theorem foldl_chrStep_acc (chars : List Chr) (v : RVars) :
+    (chars.foldl chrStep v).acc =
+      match (chars.filter isAccChr).getLast? with
+      | some .noSql => "NO SQL"
+      | some .readsSql => "READS SQL DATA"
+      | some .modifiesSql => "MODIFIES SQL DATA"
+      | some _ => "CONTAINS SQL"
+      | none => v.acc := by
+  induction chars generalizing v with
+  | nil => rfl
+  | cons a rest ih =>
+    simp only [List.foldl_cons]
+    rw [ih]
+    cases a <;> simp only [List.filter, isAccChr, List.getLast?_cons, chrStep] <;>
+      (cases (List.filter isAccChr rest).getLast? with
+       | none => simp
+       | some w => cases w <;> simp)
+
+/-- **The loop of `routinesRowIter` is a map**: whatever the variables hold when an iteration starts
+(the initial values, or what the previous procedure left there), the row of a procedure is
+`routineRow` of that procedure. -/
+theorem routinesLoop_eq_map (ps : List Proc) (v : RVars) : routinesLoop v ps = ps.map routineRow := by
+  induction ps generalizing v with
+  | nil => rfl
+  | cons p rest ih =>
+    simp only [routinesLoop, List.map_cons, ih]
+    congr 1
+    have hd := foldl_chrStep_det p.chars (resetVars v)
+    have ha := foldl_chrStep_acc p.chars (resetVars v)
+    have hs := foldl_chrStep_sec p.chars (resetVars v)
+    have hd' : (List.foldl chrStep (resetVars v) p.chars).det = detOf p.chars := by
+      rw [hd]; unfold detOf
+      cases (List.filter isDetChr p.chars).getLast? with
+      | none => rfl
+      | some w => cases w <;> rfl
+    have ha' : (List.foldl chrStep (resetVars v) p.chars).acc = accOf p.chars := by
+      rw [ha]; unfold accOf
+      cases (List.filter isAccChr p.chars).getLast? with
+      | none => rfl
+      | some w => cases w <;> rfl
+    simp only [resetVars] at hd' ha' hs
+    cases hi : p.invoker <;> simp [routineRow, hd', ha', hs, hi, resetVars]
+
+
+theorem mem_insertProc {p q : Proc} {l : List Proc} : q ∈ insertProc p l ↔ q = p ∨ q ∈ l := by
+  induction l with
+  | nil => simp [insertProc]
+  | cons a rest ih =>
+    simp only [insertProc]
+    split
+    · simp
+    · simp only [List.mem_cons, ih]
+      constructor
+      · rintro (h | h | h) <;> simp [h]
+      · rintro (h | h | h) <;> simp [h]
+
+theorem mem_sortProcs {q : Proc} {l : List Proc} : q ∈ sortProcs l ↔ q ∈ l := by
+  unfold sortProcs
+  induction l with
+  | nil => simp
+  | cons a rest ih => simp only [List.foldr, mem_insertProc, ih, List.mem_cons]
+
+/-- What a statement does to the procedures: nothing, append one of a new name, or remove one name. -/
+theorem apply_procs {c c' : Cat} {d : Ddl} (h : apply c d = some c') :
+    c'.procs = c.procs ∨
+    (∃ p, d = .createProc p ∧ c.procs.any (·.name = p.name) = false ∧ c'.procs = c.procs ++ [p]) ∨
+    (∃ n, d = .dropProc n ∧ c'.procs = c.procs.filter (·.name ≠ n)) := by
+  cases d <;> simp only [apply] at h
+  case createProc p =>
+    split at h
+    · cases h
+    · rename_i hc
+      cases h
+      exact Or.inr (Or.inl ⟨p, rfl, by simpa using hc, rfl⟩)
+  case dropProc n =>
+    split at h
+    · cases h; exact Or.inr (Or.inr ⟨n, rfl, rfl⟩)
+    · cases h
+  all_goals (
+    repeat' (split at h)
+    all_goals first
+      | (cases h; done)
+      | (cases h; exact Or.inl rfl))
+
+def ProcsNodup (c : Cat) : Prop := (c.procs.map (·.name)).Nodup
+
+theorem apply_procsNodup {c c' : Cat} {d : Ddl} (hw : ProcsNodup c) (h : apply c d = some c') : ProcsNodup c' := by
+  unfold ProcsNodup at *
+  rcases apply_procs h with e | ⟨p, _, hn, e⟩ | ⟨n, _, e⟩
+  · rw [e]; exact hw
+  · rw [e, List.map_append]
+    refine List.nodup_append.mpr ⟨hw, by simp, ?_⟩
+    intro a ha b hb
+    simp at hb
+    subst hb
+    obtain ⟨q, hq, rfl⟩ := List.mem_map.mp ha
+    simp only [List.any_eq_false, decide_eq_true_eq] at hn
+    exact hn q hq
+  · rw [e]
+    exact (List.Sublist.map _ List.filter_sublist).nodup hw
+
+theorem applyAll_procsNodup (h : List Ddl) {c : Cat} (hw : ProcsNodup c) : ProcsNodup (applyAll c h) := by
+  induction h generalizing c with
+  | nil => exact hw
+  | cons d rest ih =>
+    simp only [applyAll]
+    cases ha : apply c d with
+    | none => simpa using ih hw
+    | some c' => simpa using ih (apply_procsNodup hw ha)
 
 end Gms.Catalog
 
@@ -577,6 +768,128 @@ theorem show_columns_eq_infoschema (keys : Tbl → List String) (t : Tbl) :
 both come from `GetIndexes`). -/
 theorem show_index_eq_statistics (c : Cat) : statisticsView c = c.tables.flatMap showIndex := rfl
 
+/-! ### key order -/
+
+/-- **SHOW CREATE TABLE prints every key in key order**: in a well-formed table the PRIMARY KEY clause
+(built from the ordinals of the key columns) and the secondary key clauses list exactly the columns
+of `GetIndexes`, in the order the key was declared — whatever the column order of the table is. -/
+theorem show_create_keys_follow_key_order (t : Tbl) (hw : tblWF t) : showCreateKeys t = t.allIdxs.map keyLine := by
+  unfold showCreateKeys Tbl.allIdxs
+  rw [showCreatePk_eq_pk t hw.1, List.map_append]
+  congr 1
+  split <;> rfl
+
+/-- STATISTICS / SHOW INDEX are the concatenation of the rows of each index of `GetIndexes` … -/
+theorem statistics_by_index (t : Tbl) : statRows t = t.allIdxs.flatMap (statRowsOf t) := rfl
+
+/-- … and the rows of one index name its columns in key order, numbered 1..n: the same list, in
+the same order, as the key clause of SHOW CREATE TABLE (`keyLine i` prints `i.cols`). -/
+theorem statistics_key_order (t : Tbl) (i : Idx) :
+    (statRowsOf t i).map (fun r => r.getD 4 "") = i.cols ∧
+    (statRowsOf t i).map (fun r => r.getD 3 "") = (List.range' 0 i.cols.length).map (fun k => toString (k + 1)) := by
+  unfold statRowsOf
+  simp only [List.map_map]
+  constructor
+  · have := map_zipIdx_fst' (fun (cn : String) => cn) i.cols 0
+    simpa [Function.comp_def] using this
+  · have := map_zipIdx_snd' (fun (k : Nat) => toString (k + 1)) i.cols 0
+    simpa [Function.comp_def] using this
+
+/-- KEY_COLUMN_USAGE numbers the columns of a unique key in the same order. -/
+theorem key_column_usage_key_order (t : Tbl) :
+    keyColumnRows t = (t.allIdxs.filter (·.unique)).flatMap fun i => i.cols.zipIdx.map fun (cn, k) => [i.name, t.name, cn, toString (k + 1)] := rfl
+
+/-- **The key order is the declared order**: after ADD PRIMARY KEY (cols) the table's key is `cols`, as
+written (after any history, and independently of the column order). -/
+theorem addPk_declares_order (c c' : Cat) (tn : String) (cols : List String) (h : apply c (.addPk tn cols) = some c')
+    (t' : Tbl) (ht' : t' ∈ c'.tables) (hn : t'.name = tn) : t'.pk = cols := by
+  simp only [apply] at h
+  split at h
+  · split at h
+    · cases h
+    · cases h
+      rcases mem_updTable ht' with ⟨_, hne⟩ | ⟨t0, _, _, rfl⟩
+      · exact absurd hn hne
+      · rfl
+  · cases h
+
+example : (applyAll Cat.empty [.createTable ⟨"t", [⟨"a", "int", true, none⟩, ⟨"b", "int", true, none⟩, ⟨"c", "int", true, none⟩], ["b", "a"], []⟩,
+    .dropPk "t", .addPk "t" ["c", "a"]]).tables.map showCreateKeys = [[["PRIMARY", "1", "c,a"]]] := by decide
+
+/-- **Frame for the column order**: ADD COLUMN at any position changes no key of any table. -/
+theorem addColumn_keeps_keys (c c' : Cat) (tn : String) (col : Col) (pos : Pos) (h : apply c (.addColumn tn col pos) = some c') :
+    c'.tables.map (fun t => (t.name, t.pk, t.idxs)) = c.tables.map (fun t => (t.name, t.pk, t.idxs)) := by
+  simp only [apply] at h
+  split at h
+  · split at h
+    · cases h
+    · split at h
+      · cases h
+        simp only [updTable, List.map_map]
+        apply List.map_congr_left
+        intro t _
+        simp only [Function.comp]
+        split <;> rfl
+      · cases h
+  · cases h
+
+/-! ### routines -/
+
+/-- **Each ROUTINES row is a function of its own routine**: the listing the code computes (one loop over
+the procedures sorted by name, three variables declared outside the loop) is, row by row, `routineRow`
+of the procedure — IS_DETERMINISTIC / SQL_DATA_ACCESS / SECURITY_TYPE of one routine do not depend on
+which other routines exist, nor on where it comes in the iteration. -/
+theorem routines_rows_independent (c : Cat) : routinesView false c = routinesSpec c := by
+  simp [routinesView, routinesSpec, routinesLoop_eq_map]
+
+/-- The carried state is irrelevant: the loop gives the same rows from any starting values. -/
+theorem routines_loop_state_irrelevant (ps : List Proc) (v w : RVars) : routinesLoop v ps = routinesLoop w ps := by
+  rw [routinesLoop_eq_map, routinesLoop_eq_map]
+
+example : routinesLoop ⟨"", "", ""⟩ [⟨"p_audit", [.det, .readsSql], true⟩, ⟨"p_plain", [], false⟩] =
+    [["p_audit", "YES", "READS SQL DATA", "INVOKER"], ["p_plain", "NO", "CONTAINS SQL", "DEFINER"]] := by decide
+
+/-- **ROUTINES lists exactly the existing procedures, each with its own row.** -/
+theorem routines_exact (c : Cat) (r : Row) : r ∈ routinesView false c ↔ ∃ p ∈ c.procs, r = routineRow p := by
+  rw [routines_rows_independent]
+  simp only [routinesSpec, List.mem_map, mem_sortProcs]
+  constructor
+  · rintro ⟨p, hp, rfl⟩; exact ⟨p, hp, rfl⟩
+  · rintro ⟨p, hp, rfl⟩; exact ⟨p, hp, rfl⟩
+
+/-- **Frame**: creating or dropping another procedure (or any other statement) leaves the row of an
+existing procedure in the listing unchanged. -/
+theorem routine_row_frame (c c' : Cat) (d : Ddl) (h : apply c d = some c') (p : Proc) (hp : p ∈ c.procs)
+    (hd : d ≠ .dropProc p.name) : routineRow p ∈ routinesView false c' := by
+  rw [routines_exact]
+  refine ⟨p, ?_, rfl⟩
+  rcases apply_procs h with e | ⟨q, _, _, e⟩ | ⟨n, hdn, e⟩
+  · rw [e]; exact hp
+  · rw [e]; exact List.mem_append_left _ hp
+  · rw [e]
+    refine List.mem_filter.mpr ⟨hp, ?_⟩
+    have : p.name ≠ n := by intro e'; subst e'; exact hd hdn
+    simpa using this
+
+/-- Procedure names stay unique after any history (a second CREATE PROCEDURE of a name is rejected). -/
+theorem procs_unique_after_any_history (h : List Ddl) : ProcsNodup (applyAll Cat.empty h) :=
+  applyAll_procsNodup h (by simp [ProcsNodup, Cat.empty])
+
+/-- SHOW PROCEDURE STATUS is a projection of ROUTINES (name, security type). -/
+theorem show_proc_status_eq_routines (c : Cat) :
+    showProcStatus (routinesView false c) = (sortProcs c.procs).map fun p => [p.name, if p.invoker then "INVOKER" else "DEFINER"] := by
+  rw [routines_rows_independent]
+  simp [showProcStatus, routinesSpec, routineRow, List.map_map, Function.comp_def]
+
+/-- ROUTINES without a privilege set (account management disabled): empty although procedures exist. -/
+theorem finding_no_privilege_set_routines_empty :
+    let c : Cat := ⟨[], [], [], [⟨"p", [.det], false⟩]⟩
+    routinesView true c = [] ∧ routinesSpec c = [["p", "YES", "CONTAINS SQL", "DEFINER"]] := by decide
+
+theorem routines_eq_spec_partial (c : Cat) (privSetMissing : Bool) (h : privSetMissing = false) :
+    routinesView privSetMissing c = routinesSpec c := by
+  subst h; exact routines_rows_independent c
+
 /-! ### where the code differs from the property -/
 
 /-- COLUMN_KEY: `information_schema.columns` marks the second column of a non-unique index MUL and lets
@@ -610,7 +923,7 @@ theorem columnKeys_agree_partial (t : Tbl) (hp : t.pk = []) (hi : t.idxs = []) :
 /-- TRIGGERS / VIEWS without a cached privilege set (account management disabled, the default
 engine): empty although the objects exist. -/
 theorem finding_no_privilege_set_views_triggers_empty :
-    let c : Cat := ⟨[⟨"t", [⟨"a", "int", true, none⟩], [], []⟩], [⟨"v", "select 1"⟩], [⟨"tr", "t", "BEFORE", "INSERT"⟩]⟩
+    let c : Cat := ⟨[⟨"t", [⟨"a", "int", true, none⟩], [], []⟩], [⟨"v", "select 1"⟩], [⟨"tr", "t", "BEFORE", "INSERT"⟩], []⟩
     triggersView true c = [] ∧ showTriggers c ≠ [] ∧ viewsView true c = [] ∧ viewsRows c ≠ [] := by decide
 
 theorem triggers_eq_show_triggers_partial (c : Cat) : triggersView false c = showTriggers c ∧ viewsView false c = viewsRows c :=
